@@ -57,7 +57,7 @@ def havoc_locations(eng, st, locs):
         elif kind == "dict":
             rec = st.objs[loc[1].oid]
             if rec.get("lazy"):
-                kk, vk = getattr(eng.reg, "default_dict_kinds", (None, None))
+                kk, vk = loc[2:4] if len(loc) >= 4 else getattr(eng.reg, "default_dict_kinds", (None, None))
                 if kk is None:
                     raise Unsupported("havoc of an untyped empty dict")
                 st = st.setobj(loc[1].oid, {"dom": z3.K(sort_of(kk), z3.BoolVal(False)),
@@ -89,6 +89,15 @@ def havoc_locations(eng, st, locs):
             o, name, mk = loc[1], loc[2], loc[3]
             st, v = mk(st)
             st = st.updobj(o.oid, **{"attr:" + name: v})
+        elif kind == "record_keys":
+            # a record dict (literal keys): the listed keys may have been added, replaced or left out - their entries become
+            # unknown (reading one is unsupported), every other entry is untouched
+            rec = st.objs[loc[1].oid]
+            if not rec.get("pure"):
+                raise Unsupported("record_keys havoc of a dict that is not a record")
+            items = tuple((k, v) for k, v in rec["pyitems"] if k not in loc[2])
+            items += tuple((k, VOpaque("maybe-entry")) for k in loc[2])
+            st = st.updobj(loc[1].oid, pyitems=items)
         elif kind == "ghost":
             st = st.setghost(loc[1], loc[2](st))
         else:
